@@ -52,6 +52,13 @@ def gen_jobs(ctx):
             r2 = rows(rng, n, 2)
             jobs.append(("shim.bbox", [enc_arr(r2)], "exact"))
             jobs.append(("shim.contains_nd", [enc_arr(r2), enc_vec([F(rng.randint(-8, 8), 4), F(rng.randint(-8, 8), 4)])], "exact"))
+            # ... and in the dimension of r (1..4): inside the box in every coordinate but possibly one
+            pt_ = [(min(x) + max(x)) / 2 for x in r]
+            if rng.random() < 0.6:
+                k_ = rng.randrange(dim)
+                pt_[k_] = max(r[k_]) + 1
+            if all(F(float(x)) == x for x in pt_):
+                jobs.append(("shim.contains_nd", [enc_arr(r), enc_vec(pt_)], "exact"))
             pts = [[F(rng.randint(0, 3)) for _ in range(rng.randint(1, 7))] for _ in range(2)]
             pts[1] = pts[1][:len(pts[0])] + [F(0)] * (len(pts[0]) - len(pts[1]))
             jobs.append(("shim.simple_convex_hull", [enc_arr(pts)], "exact"))
